@@ -4,6 +4,13 @@ package cachingmap_test
 // sequence of desired changes, out-of-band dataplane changes, cache loads and Apply calls
 // with failures, the cached dataplane view equals what the harness knows the map saw
 // succeed, and after an Apply that returned nil the real map equals the desired state.
+//
+// The real map can also lose keys behind the cache's back (kernel expiry, LRU eviction, another
+// writer) without a reload; the harness only takes keys that are not desired at that moment (a lost
+// desired key is the caller's responsibility, see the Dataplane() doc comment).  The cache then
+// legitimately still believes in the key until it touches it: the Delete of such a key returns the
+// map's not-exists error (batched and unbatched maps), and from then on the cached view must again
+// equal the real map - also when the key is re-added later with the value the cache remembered.
 
 import (
 	"errors"
@@ -26,6 +33,13 @@ type c18Map struct {
 	batched   bool
 	writes    int
 	failed    int
+	// stale: keys that vanished from kv behind the cache's back, with the value the cache still
+	// remembers; an entry is dropped as soon as the cache had the chance to learn the truth (a
+	// Delete that answered not-exists, a successful Update, a Load).
+	stale map[int]string
+	// learned: lost keys for which Delete answered not-exists (value the cache used to hold).
+	learned        map[int]string
+	notExistDelete int
 }
 
 func (m *c18Map) next() bool {
@@ -42,6 +56,7 @@ func (m *c18Map) Update(k int, v string) error {
 		return errors.New("injected update failure")
 	}
 	m.kv[k] = v
+	delete(m.stale, k)
 	m.writes++
 	return nil
 }
@@ -58,6 +73,11 @@ func (m *c18Map) Delete(k int) error {
 		return errors.New("injected delete failure")
 	}
 	if _, ok := m.kv[k]; !ok {
+		if old, wasStale := m.stale[k]; wasStale {
+			delete(m.stale, k)
+			m.learned[k] = old
+		}
+		m.notExistDelete++
 		return errC18NotExist
 	}
 	delete(m.kv, k)
@@ -73,6 +93,7 @@ func (m *c18Map) Load() (map[int]string, error) {
 	for k, v := range m.kv {
 		cp[k] = v
 	}
+	m.stale = map[int]string{}
 	return cp, nil
 }
 func (m *c18Map) ErrIsNotExists(err error) bool { return errors.Is(err, errC18NotExist) }
@@ -99,10 +120,11 @@ func (m c18BatchMap) BatchDelete(ks []int) (int, error) {
 func TestVerifC18CachingMap(t *testing.T) {
 	ev.Quiet()
 	rec := ev.New("C18", "cachingmap",
-		"rapid state machine over cachingmap.New(map double with per-write fault plan, batched and unbatched): desired set/delete/deleteAll, out-of-band map edits followed by LoadCacheFromDataplane, ApplyAllChanges/UpdatesOnly/DeletionsOnly with injected failures and missing keys. Non-trivial = an Apply saw >=1 injected failure and a later Apply succeeded; distinct = op-kind sequence")
+		"rapid state machine over cachingmap.New(map double with per-write fault plan, batched and unbatched): desired set/delete/deleteAll, out-of-band map edits followed by LoadCacheFromDataplane, ApplyAllChanges/UpdatesOnly/DeletionsOnly with injected failures and missing keys; undesired keys lost from the real map behind the cache's back (no reload) so that their Delete answers the map's not-exists error, and lost keys re-added with the value the cache used to hold. Non-trivial = an Apply saw >=1 injected failure and a later Apply succeeded, or the Delete of a lost key answered not-exists; distinct = op-kind sequence",
+		"only keys that are not desired are lost behind the cache's back (keeping desired keys in sync after out-of-band changes is documented as the caller's responsibility)")
 	defer rec.Write()
 	rapid.Check(t, func(t *rapid.T) {
-		base := &c18Map{kv: map[int]string{}}
+		base := &c18Map{kv: map[int]string{}, stale: map[int]string{}, learned: map[int]string{}}
 		n0 := rapid.IntRange(0, 4).Draw(t, "initialKeys")
 		for i := 0; i < n0; i++ {
 			base.kv[rapid.IntRange(0, 5).Draw(t, "k0")] = rapid.SampledFrom([]string{"a", "b", "c"}).Draw(t, "v0")
@@ -118,13 +140,68 @@ func TestVerifC18CachingMap(t *testing.T) {
 		cacheStale := false // out-of-band edit not yet reloaded
 		sawFailure, okAfterFailure := false, false
 		var ops []string
+		// cacheKnownLoaded: the harness knows that the cache was loaded (explicit load or an Apply
+		// that returned nil); only then can a key be "lost behind the cache's back".
+		cacheKnownLoaded := false
+		lostKeys, lostDeleted, readdPending, readdApplied, staleReadd := 0, 0, map[int]bool{}, false, false
+		sortedKeys := func(m map[int]string) []int {
+			var ks []int
+			for k := 0; k <= 5; k++ {
+				if _, ok := m[k]; ok {
+					ks = append(ks, k)
+				}
+			}
+			return ks
+		}
 		t.Repeat(map[string]func(*rapid.T){
 			"set": func(t *rapid.T) {
 				k := rapid.IntRange(0, 5).Draw(t, "k")
 				v := rapid.SampledFrom([]string{"a", "b", "c"}).Draw(t, "v")
 				cm.Desired().Set(k, v)
 				des[k] = v
+				if old, ok := base.learned[k]; ok && old == v {
+					readdPending[k] = true
+				}
 				ops = append(ops, "S")
+			},
+			"readdLostKey": func(t *rapid.T) {
+				// Make a key desired again that was lost from the real map and whose deletion
+				// answered not-exists - with the value the cache used to hold for it.
+				ks := sortedKeys(base.learned)
+				if len(ks) == 0 {
+					t.Skip("no lost key yet")
+				}
+				k := rapid.SampledFrom(ks).Draw(t, "lostKey")
+				v := base.learned[k]
+				cm.Desired().Set(k, v)
+				des[k] = v
+				readdPending[k] = true
+				ops = append(ops, "R")
+			},
+			"loseBehindCache": func(t *rapid.T) {
+				// The real map loses keys that are not desired (pending deletion), without a reload.
+				if !cacheKnownLoaded {
+					t.Skip("cache not known to be loaded")
+				}
+				var cands []int
+				for _, k := range sortedKeys(base.kv) {
+					if _, desired := des[k]; !desired {
+						cands = append(cands, k)
+					}
+				}
+				if len(cands) == 0 {
+					t.Skip("no undesired key in the map")
+				}
+				n := rapid.IntRange(1, 2).Draw(t, "nLost")
+				for i := 0; i < n && len(cands) > 0; i++ {
+					j := rapid.IntRange(0, len(cands)-1).Draw(t, "lostIdx")
+					k := cands[j]
+					cands = append(cands[:j], cands[j+1:]...)
+					base.stale[k] = base.kv[k]
+					delete(base.kv, k)
+					lostKeys++
+				}
+				ops = append(ops, "L")
 			},
 			"del": func(t *rapid.T) {
 				k := rapid.IntRange(0, 5).Draw(t, "k")
@@ -157,6 +234,7 @@ func TestVerifC18CachingMap(t *testing.T) {
 					}
 				}
 				cacheStale = false
+				cacheKnownLoaded = true
 				ops = append(ops, "O")
 			},
 			"apply": func(t *rapid.T) {
@@ -164,6 +242,7 @@ func TestVerifC18CachingMap(t *testing.T) {
 				base.loadFails = rapid.IntRange(0, 1).Draw(t, "loadFails")
 				mode := rapid.IntRange(0, 2).Draw(t, "mode")
 				failedBefore := base.failed
+				notExistBefore := base.notExistDelete
 				var err error
 				switch mode {
 				case 0:
@@ -182,15 +261,35 @@ func TestVerifC18CachingMap(t *testing.T) {
 						t.Fatalf("Apply hid %d injected write failures", base.failed-failedBefore)
 					}
 				}
+				if base.notExistDelete > notExistBefore && len(base.learned) > 0 {
+					lostDeleted++
+				}
 				if err == nil {
+					cacheKnownLoaded = true
 					if sawFailure {
 						okAfterFailure = true
 					}
 					// after success the real map agrees with desired for the part applied
 					for k, v := range des {
-						if mode != 2 && base.kv[k] != v {
-							t.Fatalf("after successful apply(mode %d) map[%d]=%q desired %q", mode, k, base.kv[k], v)
+						if rem, stillStale := base.stale[k]; stillStale {
+							// Lost behind the cache's back and made desired again before the cache
+							// touched it: only possible with the remembered value (no pending
+							// operation) - the caller's responsibility, not asserted.
+							if mode == 0 && rem != v {
+								t.Fatalf("after successful ApplyAllChanges key %d (desired %q, cache remembered %q, lost from the real map) was never written", k, v, rem)
+							}
+							staleReadd = true
+							continue
 						}
+						if mode != 2 && base.kv[k] != v {
+							t.Fatalf("after successful apply(mode %d) map[%d]=%q desired %q (real map %v, desired %v, ops %v)", mode, k, base.kv[k], v, base.kv, des, ops)
+						}
+						if mode != 2 && readdPending[k] {
+							readdApplied = true
+						}
+					}
+					if mode != 2 {
+						readdPending = map[int]bool{}
 					}
 					if mode != 1 {
 						for k := range base.kv {
@@ -220,15 +319,85 @@ func TestVerifC18CachingMap(t *testing.T) {
 							loaded = true
 						}
 					}
-					if loaded && fmt.Sprint(gotDP) != fmt.Sprint(base.kv) {
-						t.Fatalf("cached dataplane view %v but real map %v (ops %v)", gotDP, base.kv, ops)
+					// What the cache may believe: the real map, plus the keys that vanished behind
+					// its back and that it has not touched since.
+					expect := map[int]string{}
+					for k, v := range base.kv {
+						expect[k] = v
+					}
+					for k, v := range base.stale {
+						expect[k] = v
+					}
+					if loaded && fmt.Sprint(gotDP) != fmt.Sprint(expect) {
+						t.Fatalf("cached dataplane view %v but real map %v (keys lost behind the cache's back and not yet touched: %v; lost keys whose Delete answered not-exists: %v; desired %v; ops %v)",
+							gotDP, base.kv, base.stale, base.learned, des, ops)
 					}
 				}
 			},
 		})
 		key := strings.Join(ops, "")
-		rec.SizedCase(sawFailure && okAfterFailure, key, len(ops), func() any {
+		var classes []string
+		if batched {
+			classes = append(classes, "batched-map")
+		} else {
+			classes = append(classes, "unbatched-map")
+		}
+		if lostKeys > 0 {
+			classes = append(classes, "key-lost-behind-cache")
+		}
+		if lostDeleted > 0 {
+			classes = append(classes, "delete-of-lost-key-answers-not-exists")
+			if batched {
+				classes = append(classes, "delete-of-lost-key-answers-not-exists(batched)")
+			} else {
+				classes = append(classes, "delete-of-lost-key-answers-not-exists(unbatched)")
+			}
+		}
+		if readdApplied {
+			classes = append(classes, "lost-key-readded-with-old-value-and-applied")
+		}
+		if staleReadd {
+			classes = append(classes, "lost-key-readded-before-cache-touched-it(not-asserted)")
+		}
+		rec.SizedCase((sawFailure && okAfterFailure) || lostDeleted > 0, key, len(ops), func() any {
 			return map[string]any{"ops": key, "batched": batched}
-		})
+		}, classes...)
 	})
+}
+
+// TestVerifC18LostKeyDeleteIsLearned: deterministic companion of the generated search.  A key that
+// is pending deletion vanishes from the real map; its Delete answers the map's not-exists error.
+// After ApplyAllChanges returned nil the cached view must equal the real map, and re-adding the key
+// with the value the cache used to hold must reach the real map.
+func TestVerifC18LostKeyDeleteIsLearned(t *testing.T) {
+	ev.Quiet()
+	for _, batched := range []bool{false, true} {
+		base := &c18Map{kv: map[int]string{1: "a", 2: "b"}, stale: map[int]string{}, learned: map[int]string{}}
+		var cm *cachingmap.CachingMap[int, string]
+		if batched {
+			cm = cachingmap.New[int, string]("verif", c18BatchMap{base})
+		} else {
+			cm = cachingmap.New[int, string]("verif", base)
+		}
+		cm.Desired().Set(1, "a")
+		if err := cm.LoadCacheFromDataplane(); err != nil {
+			t.Fatal(err)
+		}
+		delete(base.kv, 2) // expires behind the cache's back while pending deletion
+		if err := cm.ApplyAllChanges(); err != nil {
+			t.Fatalf("batched=%v: ApplyAllChanges: %v", batched, err)
+		}
+		view := map[int]string{}
+		cm.Dataplane().Iter(func(k int, v string) { view[k] = v })
+		if fmt.Sprint(view) != fmt.Sprint(base.kv) {
+			t.Fatalf("batched=%v: after ApplyAllChanges returned nil the cached view is %v but the real map is %v", batched, view, base.kv)
+		}
+		cm.Desired().Set(2, "b")
+		if err := cm.ApplyAllChanges(); err != nil {
+			t.Fatalf("batched=%v: ApplyAllChanges: %v", batched, err)
+		}
+		if base.kv[2] != "b" {
+			t.Fatalf("batched=%v: key 2 re-added with its old value never reached the real map: %v", batched, base.kv)
+		}
+	}
 }
